@@ -43,10 +43,69 @@ KINDS = ("relabel", "relabel", "redundant", "repack", "repack", "same", "unrelat
          "onesided", "onesided", "onesided")
 
 
+_LAST_SECOND_SEARCH = {}
+
+
 def shard_setup(tier):
     searchlib.install_ambient()
     m_spec.install()
     m_bijection.install()
+    # classification aid only: remember what the second search of the finder returned
+    from comb_spec_searcher import bijection as bmod
+
+    for cls in (bmod.ParallelSpecFinder, bmod.EqPathParallelSpecFinder):
+        if getattr(cls, "_verif_wrapped", None) is cls:
+            continue
+        orig = cls.__dict__["_search_matching_info"]
+
+        def wrapped(self, matching_info, _orig=orig):
+            res = _orig(self, matching_info)
+            _LAST_SECOND_SEARCH.update(info=matching_info, res=res, roots=(self._pi1.root_eq_label,
+                                                                          self._pi2.root_eq_label))
+            return res
+
+        cls._search_matching_info = wrapped
+        cls._verif_wrapped = cls
+    # ... and whether the second search ever accepted a pair of labels whose two assigned
+    # rules were not matched with each other (the defect repaired by 8ce5a11; must not hide
+    # behind the open finding about *descendants* of such pairs)
+    base_cls = bmod.ParallelSpecFinder
+    if not getattr(base_cls, "_verif_wrapped_inconsistent", False):
+        orig_inc = base_cls.__dict__["_inconsistent_with_matching_info"].__func__
+
+        def inconsistent(id1, id2, matching_info, matching_info1, matching_info2, sp1, sp2):
+            res = orig_inc(id1, id2, matching_info, matching_info1, matching_info2, sp1, sp2)
+            if (not res and id1 in sp1 and id2 in sp2 and (id1, id2) in matching_info
+                    and (sp1[id1], sp2[id2]) not in matching_info[(id1, id2)]):
+                _LAST_SECOND_SEARCH["pair_itself_unmatched"] = True
+            return res
+
+        base_cls._inconsistent_with_matching_info = staticmethod(inconsistent)
+        base_cls._verif_wrapped_inconsistent = True
+
+
+def unmatched_descendants():
+    """Classification predicate for a returned pair that is not isomorphic: do the two rule
+    assignments of the second search pair up, somewhere below the roots, two rules that the
+    first search never matched with each other?"""
+    st = _LAST_SECOND_SEARCH
+    if not st or st.get("res") is None:
+        return False
+    info, (sp1, sp2) = st["info"], st["res"]
+    todo, seen = [st["roots"]], set()
+    while todo:
+        a, c = todo.pop()
+        if (a, c) in seen:
+            continue
+        seen.add((a, c))
+        ch1, ch2 = sp1.get(a), sp2.get(c)
+        if ch1 is None or ch2 is None:
+            continue
+        order = info.get((a, c), {}).get((ch1, ch2)) if (a, c) in info else None
+        if order is None:
+            return True
+        todo.extend((ch1[i], c2) for i, c2 in zip(order, ch2))
+    return False
 
 
 def gen_cases(tier, seed):
@@ -169,6 +228,7 @@ def run_case(case):
     pk1, pk2 = s1.strategy_pack, s2.strategy_pack
     m_spec.set_context(packs=[pk1, pk2], judge_productivity=True, truth_empty=_truth_empty)
     Finder = ParallelSpecFinder if case["variant"] == "plain" else EqPathParallelSpecFinder
+    _LAST_SECOND_SEARCH.clear()
     cx.count("finder.find_calls")
     cx.see("finder_variant", case["variant"])
     cx.see("pair_kind", case["kind"])
@@ -189,7 +249,8 @@ def run_case(case):
         try:
             out = finder.find()
         except Exception as e:  # noqa: BLE001 - totality is the property
-            cx.violation(f"C13:find-raises:{type(e).__name__}@{base.crash_site(e)}",
+            tag = ":assigned-pair-itself-unmatched" if _LAST_SECOND_SEARCH.get("pair_itself_unmatched") else ""
+            cx.violation(f"C13:find-raises:{type(e).__name__}@{base.crash_site(e)}{tag}",
                          f"{Finder.__name__}.find() raised {type(e).__name__}: {str(e)[:300]} "
                          f"(start labels off their representatives: {off_rep})",
                          {"traceback": base.short_tb(e, 8)})
@@ -219,6 +280,10 @@ def run_case(case):
                     pass
                 finally:
                     m_bijection._DEPTH[0] -= 1
+            if why == "other" and _LAST_SECOND_SEARCH.get("pair_itself_unmatched"):
+                why = "assigned-pair-itself-unmatched"
+            elif why == "other" and unmatched_descendants():
+                why = "unmatched-descendants"
             cx.violation(f"C13:returned-pair-not-isomorphic:{why}",
                          f"{Finder.__name__} returned a pair for which Isomorphism.check is {ok} (reverse: {rev}); "
                          f"cause: {why}",
